@@ -202,9 +202,119 @@ theorem profiles_after_select {p : Proj} (g : Good p) (names : List String) (pol
     k ∈ keys (withProfiles (run p [.select names pol]) P).services ↔ k ∈ keys (withProfiles p P).services :=
   profiles_absorbs_history g [.select names pol] P k
 
+/-! ## `WithServicesEnabled` is idempotent -/
+
+theorem resolveEnv_idem (penv : AL String) (env : AL (Option String)) :
+    resolveEnv penv (resolveEnv penv env) = resolveEnv penv env := by
+  unfold resolveEnv
+  rw [List.map_map]
+  apply List.map_congr_left
+  intro kv _
+  obtain ⟨k, v⟩ := kv
+  cases v with
+  | some x => rfl
+  | none =>
+    simp only [Function.comp]
+    cases h : lookup k penv <;> simp [h]
+
+theorem resolveEnabled_idem (p : Proj) : resolveEnabled (resolveEnabled p) = resolveEnabled p := by
+  unfold resolveEnabled
+  simp only [List.map_map]
+  congr 1
+  apply List.map_congr_left
+  intro kv _
+  simp [Function.comp, resolveEnvSvc, resolveEnv_idem]
+
+/-- re-applying the recorded profile list **is** the identity when the partition already follows the profile rule -/
+theorem withProfiles_fix {q : Proj} (h : Partition q) (hs : ∀ kv ∈ q.services, hasProfile kv.2 q.profiles = true)
+    (hd : ∀ kv ∈ q.disabled, hasProfile kv.2 q.profiles = false) : withProfiles q q.profiles = q := by
+  have f1 : (q.services ++ q.disabled).filter (fun kv => hasProfile kv.2 q.profiles) = q.services := by
+    rw [List.filter_append, List.filter_eq_self.2 hs, List.filter_eq_nil_iff.2 (fun kv hk => by simp [hd kv hk]),
+      List.append_nil]
+  have f2 : (q.services ++ q.disabled).filter (fun kv => !hasProfile kv.2 q.profiles) = q.disabled := by
+    rw [List.filter_append, List.filter_eq_nil_iff.2 (fun kv hk => by simp [hs kv hk]),
+      List.filter_eq_self.2 (fun kv hk => by simp [hd kv hk]), List.nil_append]
+  have e1 := withProfiles_services h q.profiles
+  have e2 := withProfiles_disabled h q.profiles
+  rw [f1] at e1; rw [f2] at e2
+  have e : withProfiles q q.profiles =
+      { q with services := (withProfiles q q.profiles).services, disabled := (withProfiles q q.profiles).disabled } := rfl
+  rw [e, e1, e2]
+
+theorem foldl_enable_fix (q : Proj) (names : List String)
+    (hn : ∀ n ∈ names, has n q.services = true ∨ lookup n q.disabled = none) (acc : List String) :
+    names.foldl (fun acc n =>
+      if has n q.services then acc
+      else acc ++ (match lookup n q.disabled with | some s => s.profiles | none => [])) acc = acc := by
+  induction names generalizing acc with
+  | nil => rfl
+  | cons n ns ih =>
+    simp only [List.foldl_cons]
+    rcases hn n (List.mem_cons_self ..) with a | a
+    · simp only [a, if_true]; exact ih (fun m hm => hn m (List.mem_cons_of_mem _ hm)) acc
+    · by_cases b : has n q.services = true
+      · simp only [b, if_true]; exact ih (fun m hm => hn m (List.mem_cons_of_mem _ hm)) acc
+      · simp only [b, a, List.append_nil]
+        exact ih (fun m hm => hn m (List.mem_cons_of_mem _ hm)) acc
+
+/-- **`WithServicesEnabled` is idempotent** on a project as a load (and every history after it) leaves it: enabling the
+same names again returns the same project — no profile is added twice, no environment resolved differently -/
+theorem enable_idempotent {p : Proj} (g : Good p) (ok : ProfilesOK p) (names : List String) :
+    withServicesEnabled (withServicesEnabled p names) names = withServicesEnabled p names := by
+  by_cases hne : names = []
+  · subst hne; rfl
+  have hemp : names.isEmpty = false := by cases names <;> simp_all
+  have eq : withServicesEnabled p names = resolveEnabled (withProfiles p (enableProfiles p names)) := by
+    simp [withServicesEnabled, hemp]
+  have st := partition_step g (.enable names) (q := withServicesEnabled p names) rfl
+  have sp := withServicesEnabled_spec g.1 names
+  unfold EnableSpec at sp
+  rw [if_neg hne] at sp
+  obtain ⟨-, -, -, sp4⟩ := sp
+  -- every name is enabled now, or unknown
+  have hn : ∀ n ∈ names, has n (withServicesEnabled p names).services = true ∨
+      lookup n (withServicesEnabled p names).disabled = none := by
+    intro n hnm
+    by_cases hk : n ∈ known p
+    · left; exact lookup_isSome.2 (sp4 ok n hnm hk).1
+    · right
+      rw [lookup_eq_none]
+      intro c
+      exact hk ((st.2.known n).2 (mem_known.2 (.inr c)))
+  have e1 : enableProfiles (withServicesEnabled p names) names = (withServicesEnabled p names).profiles :=
+    foldl_enable_fix _ names hn _
+  -- the partition already follows the profile rule
+  have hp := withProfiles_partition g.1 (enableProfiles p names)
+  have prof : (withServicesEnabled p names).profiles = enableProfiles p names := by rw [eq]; rfl
+  have hs : ∀ kv ∈ (withServicesEnabled p names).services,
+      hasProfile kv.2 (withServicesEnabled p names).profiles = true := by
+    intro kv hkv
+    rw [prof]
+    rw [eq] at hkv
+    have : kv ∈ (withProfiles p (enableProfiles p names)).services.map
+        fun kv => (kv.1, resolveEnvSvc (withProfiles p (enableProfiles p names)).environment kv.2) := hkv
+    obtain ⟨kv0, hm, rfl⟩ := List.mem_map.1 this
+    rw [withProfiles_services g.1] at hm
+    exact (List.mem_filter.1 hm).2
+  have hd : ∀ kv ∈ (withServicesEnabled p names).disabled,
+      hasProfile kv.2 (withServicesEnabled p names).profiles = false := by
+    intro kv hkv
+    rw [prof]
+    rw [eq] at hkv
+    have hm : kv ∈ (withProfiles p (enableProfiles p names)).disabled := hkv
+    rw [withProfiles_disabled g.1] at hm
+    simpa using (List.mem_filter.1 hm).2
+  have e2 := withProfiles_fix st.1.1 hs hd
+  show (if names.isEmpty then _ else resolveEnabled (withProfiles _ (enableProfiles _ names))) = _
+  rw [hemp, e1, e2]
+  simp only [Bool.false_eq_true, if_false]
+  rw [eq, resolveEnabled_idem]
+
 /-! ## non-vacuity -/
 
 example : Good fastPathProj := ⟨by decide, by decide, by decide⟩
+example : Good exProj ∧ ProfilesOK exProj ∧ withServicesEnabled exProj ["cache"] ≠ exProj :=
+  ⟨⟨by decide, by decide, by decide⟩, by decide, by decide⟩
 example : selectWanted fastPathProj ["b"] .deps = some ["b", "a"] := by decide
 example : selectWanted fastPathProj ["zz"] .deps = none := by decide
 example : keys (withProfiles (run fastPathProj [.disable ["a"], .select ["b"] .deps]) ["x"]).services = ["b", "a"] := by decide
